@@ -4,6 +4,7 @@ package rules
 // (not of one function's text) and is hooked into the property whose clause it is a necessary condition of.
 
 import (
+	"go/constant"
 	"fmt"
 	"go/ast"
 	"go/token"
@@ -1346,4 +1347,62 @@ func checkWrapOfNilError(c *core.Ctx, r *core.Rule, prog *core.Prog, pkgs ...str
 		}
 	}
 	r.Note("errors.Wrap / Wrapf calls examined: %d", n)
+}
+
+
+// checkNameSpecialCasesOnBothSides: a parameter name that one side of package
+// uri treats specially (strings.EqualFold(name, "set-cookie"): one field line per
+// item, never folded) needs the matching special case on the other side, or
+// what the encoder writes is not what the decoder reads.
+func checkNameSpecialCasesOnBothSides(c *core.Ctx, r *core.Rule, prog *core.Prog) {
+	pkg := prog.ByPath[pkgURI]
+	if pkg == nil {
+		r.Undecided("load:uri", "-", "package uri not loaded")
+		return
+	}
+	sides := map[string]map[string]token.Pos{"Encoder": {}, "Decoder": {}}
+	for _, top := range core.PkgFuncs(prog.SSA, pkg) {
+		if top.Signature.Recv() == nil {
+			continue
+		}
+		_, tn := core.NamedOf(top.Signature.Recv().Type())
+		side := ""
+		switch {
+		case strings.HasSuffix(tn, "Encoder") || strings.HasSuffix(tn, "encoder"):
+			side = "Encoder"
+		case strings.HasSuffix(tn, "Decoder") || strings.HasSuffix(tn, "decoder"):
+			side = "Decoder"
+		default:
+			continue
+		}
+		// header / cookie / query / path families are compared per family
+		fam := strings.ToLower(strings.TrimSuffix(strings.TrimSuffix(strings.TrimSuffix(strings.TrimSuffix(tn, "Encoder"), "Decoder"), "encoder"), "decoder"))
+		fam = strings.TrimSuffix(fam, "param")
+		for _, fn := range core.AllFuncs(top) {
+			for _, call := range core.Calls(fn) {
+				if !core.IsCallTo(call.Common(), "strings", "EqualFold") {
+					continue
+				}
+				for _, a := range call.Common().Args {
+					if k, ok := a.(*ssa.Const); ok && k.Value != nil && k.Value.Kind() == constant.String {
+						sides[side][fam+":"+strings.ToLower(constant.StringVal(k.Value))] = call.Pos()
+					}
+				}
+			}
+		}
+	}
+	n := 0
+	for _, pair := range [][2]string{{"Encoder", "Decoder"}, {"Decoder", "Encoder"}} {
+		for k, pos := range sides[pair[0]] {
+			n++
+			if _, ok := sides[pair[1]][k]; ok {
+				r.Pass(fmt.Sprintf("name special case %q exists on both sides", k))
+			} else {
+				r.Fail("name-special-case-one-sided:"+k, c.Pos(pos), fmt.Sprintf("the %s side of package uri treats the parameter name %q specially, the %s side does not: the two no longer agree on the wire form of that parameter (Set-Cookie arrays: one field per item on one side, comma-split first field on the other)", pair[0], k, pair[1]))
+			}
+		}
+	}
+	if n == 0 {
+		r.Pass("no name special cases in package uri")
+	}
 }
